@@ -127,7 +127,74 @@ CHECKS.update({
              "same files is C02/C03's. xz --list figures are compared in the thorough tier only when the CLI part is built."),
 })
 
+CHECKS.update({
+    "C02": dict(
+        engine="hx_rt+refdec", category="exploration", design_ref="DESIGN.md section 4 C02, Appendix A",
+        technique="runtime monitoring: every encoder output judged by an independent decoder and field checker (refdec) under a sanitizer build; bound-function sufficiency monitor",
+        text="The real encoders (all entry points incl. threaded, .lzma, raw, Block, MicroLZMA) run on random (configuration, "
+             "input, slicing) cases; refdec - written from the format documents, sharing no code with liblzma - must accept "
+             "the bytes, recover the input, consume everything, and finds every stored field truthful (flags, CRC32s, Block "
+             "Header sizes, padding, Check, Index, Backward Size, LZMA2 chunk headers/order, dictionary size vs farthest "
+             "match). Single-call encoders with out_size = bound(n) must never fail for lack of space.",
+        note="refdec is independent code but one author's reading of the documents (cross-validated against tests/files, "
+             "liblzma round trips, 300k mutants, 1.1M synthesised streams); inputs/configurations are sampled."),
+    "C03": dict(
+        engine="hx_fmt", category="exploration", design_ref="DESIGN.md section 4 C03, Appendix A",
+        technique="runtime monitoring: three-way differential (independent synthesiser plaintext / independent decoder verdict / liblzma) over synthesised valid streams and their mutants, under a sanitizer build",
+        text="Valid streams that xz's own encoder never emits are synthesised from the grammar by independent code, then "
+             "mutated; for each, liblzma's .xz/Block/raw decoders must succeed exactly when the independent decoder says the "
+             "format accepts it (documented relaxations give no verdict) and deliver byte-identical output and input position.",
+        note="Accept/reject, output and consumed bytes are compared, never error kinds; the language of valid strings is "
+             "sampled near-valid (where bugs live), not enumerated; refdec/synth are part of the trusted base."),
+    "C05": dict(
+        engine="hx_fmt", category="fault_enumeration", design_ref="DESIGN.md section 4 C05",
+        technique="runtime monitoring: exhaustive single-bit-flip and truncation enumeration per base file (plus random multi-byte damage) through every applicable decoder, classified with the independent parser's field map",
+        text="For each sampled valid base file (.xz all checks / multi-Block / multi-Stream, .lzma, .lz) every bit flip and every "
+             "truncation length is decoded by the stream, threaded (sample), auto and format-specific decoders; success with "
+             "different data, success after non-payload damage in .xz, or a cut file reported complete is a violation. "
+             "Damaged files that are themselves valid by the format rules are classified, not alarmed.",
+        note="Exhaustive in position per base file; base files are sampled and small (quick <= 2.2 KiB). 32-bit checks leave a "
+             "2^-32 residual per random damage which would be reported with its witness."),
+    "C14": dict(
+        engine="hx_check", category="exploration", design_ref="DESIGN.md section 4 C14",
+        technique="runtime monitoring: sanitizer build + differential oracle against independent bit-at-a-time references (cross-checked per run with zlib, hashlib, the CRC-64/XZ check value and released liblzma binaries) + guard-page over-read detection; hook H2 runs generic and CLMUL code separately",
+        text="Every length 0..700 x 5 content classes x every start alignment 0..63 (buffer against PROT_NONE pages and in "
+             "exact-size ASan heap blocks), every split point for short buffers, random multi-splits, random initial values, "
+             "long buffers, SHA-256 lengths 0..320 with every two-piece split and messages above 2^32 bits are computed by "
+             "lzma_crc32/64, by the generic and the CLMUL implementation separately and by lzma_check_*, and compared with "
+             "bit-at-a-time references.",
+        note="Contents per length are sampled; only x86-64 code paths run here; crc*_small.c and the CLMUL-less build are "
+             "exercised in the thorough tier only; trusts harness/ref/check_ref.c (re-validated every run)."),
+    "C15": dict(
+        engine="hx_bcj", category="exploration", design_ref="DESIGN.md section 4 C15, Appendix A",
+        technique="runtime monitoring: sanitizer build + round-trip and slicing self-differential + reference-transform differential (independent re-implementations and released liblzma binaries in a helper process) + one-shot API comparison",
+        text="For delta (every distance) and the eight BCJ filters, random cases are pushed through the real streaming encoder "
+             "and decoder under one-call, random and byte-at-a-time slicing; the filtered bytes must equal the independent "
+             "reference transform, the released libraries' bytes and the one-shot functions' bytes, must not depend on "
+             "slicing, and must decode back to the input; misaligned start offsets must be refused.",
+        note="Input space sampled; trusts harness/ref/bcj_ref.c (agreed with liblzma 5.4.1/5.8.2 on every case); RISC-V has "
+             "only 5.8.2 as released referee; a missing released library reduces coverage, not the verdict."),
+    "C16": dict(
+        engine="hx_fmt", category="exploration", design_ref="DESIGN.md section 4 C16, Appendix A",
+        technique="runtime monitoring: differential of the .lzma/.lz/.xz decoders against the independent decoder's format rules, and of the auto decoder against the specific decoder chosen by the documented detection rules",
+        text="Synthesised and real .lzma/.lz/.xz files, mutated and concatenated with padding, magic prefixes, garbage or other "
+             "files, are decoded with random flag sets and endings; the specific decoder must accept exactly what the format "
+             "rules accept, deliver the defined content and stop at the defined input position; the auto decoder must equal "
+             "the specific decoder (status, output, total_in), report LZMA_FORMAT_ERROR for unrecognised input and reject "
+             "'.lzma followed by anything' under LZMA_CONCATENATED.",
+        note="Detection rules come from the documents; dictionary field 0 in .lzma is treated as no verdict; the CLI tools' "
+             "sniffing is C18's."),
+})
+
 ENGINES += [
+    {"name": "hx_fmt", "path": "harness/hx_fmt.c", "serves_properties": ["C03", "C05", "C16"],
+     "kind_free_text": "format-conformance monitors built on harness/ref/refdec.c (independent decoder) and harness/ref/synth.c (independent synthesiser)"},
+    {"name": "hx_rt+refdec", "path": "harness/hx_rt.c", "serves_properties": ["C02"],
+     "kind_free_text": "encoder output audited by the independent decoder"},
+    {"name": "hx_check", "path": "harness/hx_check.c", "serves_properties": ["C14"],
+     "kind_free_text": "CRC32/CRC64/SHA-256 differential monitor with hook H2"},
+    {"name": "hx_bcj", "path": "harness/hx_bcj.c", "serves_properties": ["C15"],
+     "kind_free_text": "BCJ/delta monitor with independent reference transforms and released-library referee"},
     {"name": "hx_index", "path": "harness/hx_index.c", "serves_properties": ["C13"],
      "kind_free_text": "lzma_index reference-model monitor and file-info/random-access monitor"},
     {"name": "hx_proto", "path": "harness/hx_proto.c", "serves_properties": ["C11"],
